@@ -339,12 +339,16 @@ class PendingWhile(_PendingLoop[While]):
         else:
             while_loop_orelse = self.nsp_global.expr_wraper(self.converted_orelse)
 
+        # a reserved name is used for the dummy variables of the loop,
+        # so that they never shadow a variable of the user (e.g. "_")
+        while_item_name = ol_name(OL_WHILE_ITEM)
+
         # the main body of the oneliner while loop
         while_loop_body = ListComp(
             elt=self.nsp_global.expr_wraper(self.converted_body),
             generators=[
                 comprehension(
-                    target=Name(id="_", ctx=Store()),
+                    target=Name(id=while_item_name, ctx=Store()),
                     iter=Call(
                         func=Attribute(
                             value=Name(id="itertools", ctx=Load()),
@@ -355,7 +359,7 @@ class PendingWhile(_PendingLoop[While]):
                             Lambda(
                                 args=arguments(
                                     posonlyargs=[],
-                                    args=[arg(arg="_")],
+                                    args=[arg(arg=while_item_name)],
                                     kwonlyargs=[],
                                     kw_defaults=[],
                                     defaults=[],
